@@ -10,7 +10,8 @@ Line-protocol driver for C10.  First word selects the sub-model:
   b <F|P> <pats> <val-hex>…         resource_path_from_iter, then capture on the built path
   k <path-hex> <F|P>:<pat-hex>…     successive capture_match_info on one Path
     <pats> = `S <pat-hex>` (Patterns::Single) | `L<n> <pat-hex>×n` (Patterns::List)
-(hex: lower-case, `-` = empty; strings are UTF-8)
+(hex: lower-case, `-` = empty; strings are UTF-8; a path/pattern word may also be written
+`part+part+…` with parts hex or `*<n>:<hex>` = the bytes repeated n times)
 -/
 namespace ActixModel.Drv.C10
 open ActixModel.Util ActixModel.Quoter ActixModel.Pattern
@@ -34,17 +35,28 @@ def runQuoter (prot : String) (inputs : List String) : String :=
 
 /-! ### pattern cases -/
 
-def strOfHex (w : String) : Option (List Char) :=
-  match bytesOfHex w with
-  | some bs => (String.fromUTF8? (ByteArray.mk bs.toArray)).map String.toList
-  | none => none
-
-def hexOfChars (cs : List Char) : String := hexOrDash (String.ofList cs).toUTF8.toList
-
 def allSome {α : Type} : List (Option α) → Option (List α)
   | [] => some []
   | none :: _ => none
   | some x :: xs => (allSome xs).map (x :: ·)
+
+/-- one `+`-separated part: hex, or `*<n>:<hex>` = the bytes repeated n times -/
+def bytesOfPart (part : String) : Option (List UInt8) :=
+  if part.startsWith "*" then
+    match ((part.drop 1).toString.splitOn ":") with
+    | [n, h] =>
+      match n.toNat?, bytesOfHex h with
+      | some k, some bs => some ((List.replicate k bs).flatten)
+      | _, _ => none
+    | _ => none
+  else bytesOfHex part
+
+def strOfHex (w : String) : Option (List Char) :=
+  match allSome ((w.splitOn "+").map bytesOfPart) with
+  | some parts => (String.fromUTF8? (ByteArray.mk parts.flatten.toArray)).map String.toList
+  | none => none
+
+def hexOfChars (cs : List Char) : String := hexOrDash (String.ofList cs).toUTF8.toList
 
 /-- `S <pat>` | `L<n> <pat>…`: returns the patterns and the remaining words -/
 def takePatterns : List String → Option (Patterns × List String)
